@@ -97,7 +97,25 @@ def _run(fn):
 
 
 def ref_apply(L, rec, mod, grad_mode=None, contiguous=False, flip_rg=False):
-    """Apply `mod` to fresh copies of the recorded arguments."""
+    """Apply `mod` to fresh copies of the recorded arguments.  An INTEGER input
+    is promoted by torch itself according to the default dtype in force at the
+    call (`x / 2` of an int64 tensor): for such a call the ambient default dtype
+    is part of the arguments, and the reference runs under the one the user had
+    set when calling."""
+    torch = L.torch
+    cd = rec.get("call_default")
+    if cd and rec["kind"] == "call" and rec["op"]["arg"].get("dtype") == "int64" \
+            and DTNAME.get(torch.get_default_dtype()) != cd:
+        prev = torch.get_default_dtype()
+        torch.set_default_dtype(DT[cd])
+        try:
+            return _ref_apply(L, rec, mod, grad_mode, contiguous, flip_rg)
+        finally:
+            torch.set_default_dtype(prev)
+    return _ref_apply(L, rec, mod, grad_mode, contiguous, flip_rg)
+
+
+def _ref_apply(L, rec, mod, grad_mode=None, contiguous=False, flip_rg=False):
     torch = L.torch
     gm = grad_mode or rec["op"].get("grad_mode", "ambient")
     if rec["kind"] == "call":
